@@ -88,6 +88,12 @@ func runEpisode(f family, seed int64, strategy string) (*episodeResult, *vt.Sche
 	recEnqCount = 0
 	// the items of a batch have no handle of their own: whether each was accepted is what its
 	// queue answered
+	// what a Purge removed is what the queue handed to it, item by item (not "whatever never ran")
+	notePurged = func(data int) {
+		if s := e.byData[data]; s != nil && s.purgedAt < 0 {
+			s.purgedAt = now()
+		}
+	}
 	noteEnq = func(data int, ok bool) {
 		if s := e.byData[data]; s != nil && s.batch != nil {
 			s.accepted, s.rejected = ok, !ok
